@@ -115,6 +115,32 @@ func callsAnywhere(c *core.Ctx, keys ...string) []*core.Call {
 	return out
 }
 
+// callerKey: the key of the unit on whose behalf a call is made — the unit
+// itself, or, when the call sits in a transparent helper (code that moved out
+// into a novel private function), the one baseline unit that calls the helper.
+func callerKey(c *core.Ctx, cl *core.Call) string {
+	u := cl.U
+	for depth := 0; depth < 4; depth++ {
+		r := u.Root()
+		if r.Obj == nil || !c.P.IsTransparent(r.Obj) {
+			return u.Key
+		}
+		var callers []*core.Unit
+		for _, x := range c.P.Units {
+			for _, hc := range x.Calls() {
+				if hc.Inlined == nil && hc.Callee != nil && c.P.UnitOf(hc.Callee) == r {
+					callers = append(callers, x)
+				}
+			}
+		}
+		if len(callers) != 1 {
+			return u.Key
+		}
+		u = callers[0]
+	}
+	return u.Key
+}
+
 // ---- small matchers ----
 
 // selPath renders a selector chain through method calls: s.server.Opts().PingInterval()
